@@ -224,6 +224,7 @@ type spec struct {
 	id             uint
 	items          int
 	filter         string // replies: "" | "partial" (restricted function exchange: the cmd carries function and filter)
+	bare           bool   // error results: no description element (it is optional); the error number identifies the message
 }
 
 func (s spec) isResult() bool { return s.kind == kResult0 || s.kind == kResultE }
@@ -403,6 +404,9 @@ func (m *machine) build(t world.TB, s spec) (*delivery, model.DatagramType) {
 	if s.isResult() {
 		cl = model.CmdClassifierTypeResult
 		rd := &model.ResultDataType{ErrorNumber: util.Ptr(model.ErrorNumberType(s.errNo)), Description: util.Ptr(model.DescriptionType(fmt.Sprintf("s%d", d.serial)))}
+		if s.bare {
+			rd = &model.ResultDataType{ErrorNumber: util.Ptr(model.ErrorNumberType(1000 + d.serial))}
+		}
 		cmd, data = model.CmdType{ResultData: rd}, rd
 	} else {
 		cmd, data = payload(s.fn, d.serial, s.id, s.items)
@@ -435,6 +439,9 @@ func (m *machine) inject(d *delivery, dg model.DatagramType) {
 	}
 	if d.dst >= 0 && d.accepted != (d.kind != kRejected) {
 		world.Label("deliver/acceptance-not-as-constructed")
+	}
+	if d.bare {
+		world.Label("deliver/error-result-without-description")
 	}
 }
 
@@ -495,6 +502,11 @@ func (m *machine) deliver(t world.TB, s spec) {
 	d, dg := m.build(t, s)
 	m.inject(d, dg)
 	m.w.Sync()
+	if d.kind == kReply && d.dst >= 0 && !d.accepted && len(m.pending[key{d.dst, d.ref}]) > 0 {
+		// the reply carries data of a function of the announced feature that sent it, goes to an existing
+		// local feature and a callback is waiting for it there: refusing it leaves that callback waiting for ever
+		world.Fail(t, "C14/valid-reply-refused/"+string(m.defs[d.dst].role), "%s was refused with an error result although it is the answer the callbacks %v are waiting for", m.describe(d), m.pending[key{d.dst, d.ref}])
+	}
 	m.apply(d)
 }
 
@@ -856,6 +868,7 @@ func (m *machine) drawSpec(t *rapid.T, label string) spec {
 		s.fn = rapid.SampledFrom(functionsOf[other]).Draw(t, label+".fn")
 	case kResultE:
 		s.errNo = uint(rapid.IntRange(1, 9).Draw(t, label+".errorNumber"))
+		s.bare = rapid.IntRange(0, 2).Draw(t, label+".noDescription") == 0
 	}
 	if !s.isResult() {
 		s.ack = rapid.Bool().Draw(t, label+".ack")
